@@ -45,7 +45,9 @@ SPANS = [1, 2, 5, 7, 8, 9, 10, 15, 30, 50, 100, 250, 500, 1000, 2000, 5000, 1000
 STARTS = []
 for (y, mo, d) in [(1900, 1, 1), (1999, 12, 31), (2000, 2, 28), (2000, 2, 29), (2023, 1, 29), (2023, 1, 31), (2023, 3, 31), (2023, 4, 30),
                    (2023, 5, 31), (2023, 7, 31), (2023, 8, 31), (2023, 10, 29), (2023, 12, 31), (2024, 2, 29), (2024, 3, 9),
-                   (2024, 3, 10), (2024, 6, 1), (2024, 11, 3), (2100, 2, 28), (1950, 6, 15)]:
+                   (2024, 3, 10), (2024, 6, 1), (2024, 11, 3), (2100, 2, 28), (1950, 6, 15),
+                   # leap days whose year is NOT a multiple of 5 / 10 / 20 (2000 and 2024 - 4 both round down to leap years)
+                   (1996, 2, 29), (2012, 2, 29), (1904, 2, 29), (2096, 2, 29)]:
     for tod in (dt.timedelta(0), dt.timedelta(milliseconds=-1), dt.timedelta(milliseconds=1), dt.timedelta(hours=13, minutes=37, seconds=11, milliseconds=500)):
         t = dt.datetime(y, mo, d) + tod
         if t >= LO:
@@ -192,6 +194,16 @@ def domains(job, rng, lo_span, hi_span):
                     if end <= HI:
                         yield (st, end) if (k // cur["stride"]) % 3 else (end, st)
                 k += 1
+    if cur:
+        # multi-year domains with a leap day at either end (every one of them: they are few)
+        for (y, tod) in [(1996, 0), (2012, 49031500), (1904, 0), (2096, 43200000), (2008, 1), (2196, 0)]:
+            leap = dt.datetime(y, 2, 29) + dt.timedelta(milliseconds=tod)
+            for sp in SPANS:
+                if sp < max(lo_span, 730 * DAY) or sp > hi_span:
+                    continue
+                for st, end in ((leap, leap + dt.timedelta(milliseconds=sp)), (leap - dt.timedelta(milliseconds=sp), leap)):
+                    if LO <= st and end <= HI:
+                        yield (st, end) if (sp // DAY) % 2 else (end, st)
     for _ in range(job.get("tiny", 0)):
         # domains only a few milliseconds long at arbitrary instants: conversion errors of 1e-4 ms would be visible here
         st = rand_instant(rng)
@@ -276,6 +288,27 @@ def play_hist(h, doms, rngs):
                 s.nice(int(x))
             elif a == "Y":
                 scales.append(s.copy())
+            elif a == "E":
+                # the caller edits, in place, the list object the scale holds as its range and passes the SAME object again
+                r = s.range()
+                if not isinstance(r, list):
+                    r = list(r)
+                    s.range(r)
+                r[0], r[1] = rngs[x][0], rngs[x][1]
+                s.range(r)
+            elif a == "G":
+                # the list the getter returned, edited in place and passed back
+                d = s.domain()
+                if not isinstance(d, list):
+                    d = list(d)
+                d[0], d[1] = doms[x][0], doms[x][1]
+                s.domain(d)
+            elif a == "X":
+                # no pair of instants: the setter raises before it stores anything, the caller catches it and goes on
+                try:
+                    s.domain([doms["dA"][0], None])
+                except (TypeError, ValueError, AttributeError):
+                    pass
             elif a == "F":
                 s.domain(scales[int(x) - 1].domain())
             elif a == "T":
@@ -299,7 +332,7 @@ def random_hist(rng):
     n = 1
     h = []
     for _ in range(rng.randint(3, 15)):
-        a = rng.choice(["D", "D", "R", "K", "N", "N", "Y", "F", "T"])
+        a = rng.choice(["D", "D", "R", "K", "N", "N", "Y", "F", "E", "E", "G", "X", "T"])
         i = rng.randint(1, n)
         if a == "Y":
             if n >= 4:
@@ -310,10 +343,12 @@ def random_hist(rng):
             if n < 2:
                 continue
             x = str(rng.choice([t for t in range(1, n + 1) if t != i]))
-        elif a == "D":
+        elif a in ("D", "G"):
             x = rng.choice(["dA", "dB", "dC"])
-        elif a == "R":
+        elif a in ("R", "E"):
             x = rng.choice(["rA", "rB"])
+        elif a == "X":
+            x = ""
         elif a == "K":
             x = "1"
         else:
